@@ -398,7 +398,9 @@ After(p, h, o) ==       \* HandlerState.with_outcome + the look-ahead of the ret
                           ELSE IF HC[h].mode = "permanent" \/ last \/ late(HC[h].backoff) THEN [p EXCEPT !.st = "fail", !.r = r2, !.until = 0]
                           ELSE [p EXCEPT !.st = "retry", !.r = r2, !.until = now + HC[h].backoff]
 \* the strict check before an attempt: the handler has timed out (e.g. over a downtime) - it fails for good without being called
-TimedOut(h, p) == TimeoutOf(h) > 0 /\ now - p.first >= TimeoutOf(h)
+TimedOut(h, p) == \/ TimeoutOf(h) > 0 /\ now - p.first >= TimeoutOf(h)
+                  \* ... or has used up its retries (reached without the look-ahead by a parent whose sub-handlers kept it waiting)
+                  \/ HC[h].retries # 0 /\ p.r >= HC[h].retries
 
 LastOf(h, p) == [h |-> h, retry |-> p.r, reason |-> cyc.reason, rv |-> cyc.s.rv,
                  deleting |-> cyc.s.deleting, blocked |-> Blocked(cyc.s),
@@ -692,7 +694,10 @@ CloseExactlyWhenDone ==
 \* C07: a change handler runs on a view at least as new as the worker's own last patch, or after the timeout
 FreshOrTimedOut == L.h # "none" => (L.ownrv = 0 \/ L.rv >= L.ownrv \/ CTimeout = 0 \/ now >= L.owntime + CTimeout)
 \* C11: the retries limit bounds the recorded attempts; a handler is never invoked before its delay has elapsed
-RetriesBounded == \A h \in H : HC[h].retries # 0 => obj.prog[h].r <= HC[h].retries
+\* (a record may count one more attempt than the limit: the one that was refused without calling the handler - reached by a parent
+\* whose sub-handlers kept it waiting, where there is no look-ahead)
+RetriesBounded == /\ \A h \in H : HC[h].retries # 0 => (obj.prog[h].r <= HC[h].retries \/ (obj.prog[h].r = HC[h].retries + 1 /\ obj.prog[h].st = "fail"))
+                  /\ (L.h # "none" /\ HC[L.h].retries # 0 => L.retry < HC[L.h].retries)
 \* C11: no attempt of a handler with a timeout starts later than the timeout after its first one
 NoLateAttempt == L.h # "none" => (TimeoutOf(L.h) = 0 \/ now - cyc.s.prog[L.h].first < TimeoutOf(L.h) \/ cyc.s.prog[L.h].st = "none")
 \* C15 (stealth): processing a view that no handler matches writes nothing but the withdrawal of the finalizer
